@@ -443,6 +443,11 @@ def reiterable_contract(loader, prop):
     return out
 
 
+TIMED_OPS = ("delay", "delay_subscription", "time_interval", "debounce", "throttle_first", "sample", "take_with_time", "skip_with_time",
+             "take_until_with_time", "skip_until_with_time", "take_last_with_time", "skip_last_with_time", "timeout", "throttle_with_mapper",
+             "timeout_with_mapper", "delay_with_mapper")
+
+
 def run_local(desc):
     """The K1 / function proofs of a property are about ONE subscription of ONE application of the operator, started from the
     state its subscribe function allocates.  That they speak for every subscription and every application is this frame
@@ -480,6 +485,9 @@ def run_local(desc):
                 if wc:
                     r["replay_info"] = {"runner": "diffrun.py", "module": wc[0], "name": wc[1],
                                         "mode": "resub" if f.prop == "C04" else "reuse"}
+                elif f.prop == "C04" and st.name.rstrip("_") in TIMED_OPS:
+                    # timed operators: the same observable subscribed twice on a TestScheduler (timedrun.py resub)
+                    r["replay_info"] = {"runner": "timedrun.py", "module": "-", "name": st.name.rstrip("_"), "mode": "resub"}
                 results.append(r)
     return {"unit": f"state-allocation/{prop}", "kind": "K4 frame / allocation-scope conditions of the functions under contract",
             "functions": functions, "results": results, "unsupported": None, "spec_validation": [], "bounded": [],
